@@ -93,6 +93,7 @@ func c04Fixture() *hx.Node {
 	root := hx.Dir("", ps3iso,
 		hx.RawFile("k3y.iso", k3y), hx.RawFile("k3y-exact.bin", k3y[:0x1070]), hx.RawFile("k3y-1short.bin", k3y[:0x106F]), hx.RawFile("k3y-badtable.iso", k3yBadTable), hx.RawFile("k3y-dec.iso", k3yDec),
 		&hx.Node{Name: "big.bin", Kind: "file", Size: 16 << 20, Seed: 5, Sparse: true},
+		&hx.Node{Name: "huge.bin", Kind: "file", Size: 5<<30 + 77, Seed: 41, Sparse: true}, // an ordinary disc image is larger than any 32-bit count
 		&hx.Node{Name: "psx.bin", Kind: "file", Size: 3 << 20, Seed: 6, Sparse: true, Patches: []hx.Patch{{Off: 24 + 16*2352 + 8, Data: "PLAYSTATION "}}},
 		&hx.Node{Name: "psx-sig-at-end.bin", Kind: "file", Size: 0x200000, Seed: 7, Sparse: true},
 		hx.File("small.txt", 100, 8), hx.File("zero", 0, 9),
@@ -101,6 +102,19 @@ func c04Fixture() *hx.Node {
 		root.Children = append(root.Children, hx.Dir("GAME_"+name, hx.Dir("PS3_GAME", hx.RawFile("PARAM.SFO", sfo)), hx.File("EBOOT.BIN", 3000, 10), hx.File("EMPTY", 0, 11)))
 	}
 	root.Children = append(root.Children, hx.Dir("GAME_sfo-is-dir", hx.Dir("PS3_GAME", hx.Dir("PARAM.SFO"))), hx.Dir("GAME_nosfo", hx.File("x", 1, 12)))
+	// terabytes of sparse data: sources whose image would need more sectors than 32 (31) bits can number, and an
+	// encrypted image longer than its own region map can describe
+	tera := func(name string, size int64, seed uint64) *hx.Node {
+		return &hx.Node{Name: name, Kind: "file", Size: size, Seed: seed, Sparse: true}
+	}
+	root.Children = append(root.Children,
+		hx.Dir("GAME_tera5", tera("T5.BIN", 5<<40, 31), hx.File("x", 10, 32)),
+		hx.Dir("GAME_tera9", tera("T9.BIN", 9<<40, 33), hx.File("x", 10, 34)),
+		hx.Dir("GAME_tera2x3", tera("A.BIN", 3<<40, 35), tera("B.BIN", 3<<40-2048, 36), hx.File("x", 10, 37)),
+		hx.Dir("GAME_tera4edge", tera("E.BIN", 1<<42-1<<20, 38), hx.File("x", 2<<20, 39)))
+	teraIso := tera("tera.iso", 5<<40+1000, 40)
+	teraIso.Patches = []hx.Patch{{Off: 0, Data: hx.BStr(refcrypt.EncodeTable([]refcrypt.Region{{Start: 0, End: 4}, {Start: 8, End: 0x7ffffff0}}))}}
+	ps3iso.Children = append(ps3iso.Children, teraIso, hx.RawFile("tera.dkey", key))
 	// deep, wide, long and odd names
 	deep := hx.Dir("deep")
 	cur := deep
@@ -165,7 +179,7 @@ func genC04ImageBlock(t *rapid.T, l string) []hx.Req {
 	for i := 0; i < n; i++ {
 		li := fmt.Sprintf("%s-b%d", l, i)
 		off := uint64(rapid.SampledFrom([]int{0, 1, 23, 24, 2047, 2048, 2049, 0xF6F, 0xF70, 0xF71, 0xF80, 0xFFF, 0x1000, 0x106F, 0x1070, 0x1071, 6143, 6144, 6145, 8191, 16 * 2048, 32767, 32768, 65535, 65536}).Draw(t, li+"-off"))
-		nn := uint32(rapid.SampledFrom([]int{1, 15, 16, 17, 255, 256, 257, 2047, 2048, 2049, 4096, 5000, 65535, 65536, 70000, 0x7fffffff}).Draw(t, li+"-n"))
+		nn := uint32(rapid.SampledFrom([]int{1, 15, 16, 17, 255, 256, 257, 2047, 2048, 2049, 4096, 5000, 65535, 65536, 70000, 0x7fffffff, 0x80000000, 0xffffffff}).Draw(t, li+"-n"))
 		if rapid.IntRange(0, 4).Draw(t, li+"-far") == 0 {
 			off = hx.GenHugeOffset(t, li+"-faroff") // far behind the end of the image: where sector counters wrap
 			if nn > 70000 {
